@@ -399,6 +399,14 @@ impl<'m> MCTPSMBusContext<'m> {
                         ));
                     }
 
+                    if packet[2] > CompletionCode::ErrorUnsupportedCmd as u8 {
+                        // Not a completion code we know about
+                        return Err((
+                            MessageType::MCtpControl,
+                            DecodeError::ControlMessage(ControlMessageError::Unknown),
+                        ));
+                    }
+
                     if packet[2] != CompletionCode::Success as u8 {
                         return Err((
                             MessageType::MCtpControl,
